@@ -646,7 +646,10 @@ func (r *run) traffic() {
 	maxUp := r.sp.MTU - 48 - 100
 	sizes := []int{tagLen, 13, 100, 200, 1000}
 	if f == FocusC05 {
-		sizes = []int{tagLen, 200, maxUp - 900, maxUp - 1, maxUp, maxUp + 30, maxUp + 60, maxUp + 99, r.cs.MTU - 48 - 100, r.cs.MTU - 28 - 20}
+		sizes = []int{tagLen, 200, maxUp - 900, maxUp - 1, maxUp, maxUp + 30, maxUp + 60, maxUp + 99, r.cs.MTU - 48 - 100, r.cs.MTU - 28 - 20,
+			// the 20-byte window between what fits towards an IPv6 and an IPv4 destination on the
+			// relay's outgoing side, and both edges
+			r.cs.MTU - 48 + 1 + s.Choose(20), r.cs.MTU - 48 + 1, r.cs.MTU - 28, r.cs.MTU - 28 + 1, r.cs.MTU - 48 - s.Choose(60)}
 	}
 	garbageSessions := 0
 	for round := 0; round < rounds && !s.Failed(); round++ {
